@@ -214,16 +214,26 @@ impl<D: DataMut> GGLWECompressed<D> {
 
 impl<D: DataMut> ReaderFrom for GGLWECompressed<D> {
     fn read_from<R: std::io::Read>(&mut self, reader: &mut R) -> std::io::Result<()> {
-        self.k = TorusPrecision(reader.read_u32::<LittleEndian>()?);
-        self.base2k = Base2K(reader.read_u32::<LittleEndian>()?);
-        self.dsize = Dsize(reader.read_u32::<LittleEndian>()?);
-        self.rank_out = Rank(reader.read_u32::<LittleEndian>()?);
-        let seed_len: u32 = reader.read_u32::<LittleEndian>()?;
-        self.seed = vec![[0u8; 32]; seed_len as usize];
-        for s in &mut self.seed {
-            reader.read_exact(s)?;
+        // Commit the wrapper's metadata only after the inner read succeeded (ReaderFrom: no change on error).
+        let k: TorusPrecision = TorusPrecision(reader.read_u32::<LittleEndian>()?);
+        let base2k: Base2K = Base2K(reader.read_u32::<LittleEndian>()?);
+        let dsize: Dsize = Dsize(reader.read_u32::<LittleEndian>()?);
+        let rank_out: Rank = Rank(reader.read_u32::<LittleEndian>()?);
+        let seed_len: usize = reader.read_u32::<LittleEndian>()? as usize;
+        // `seed_len` is untrusted: grow with the bytes actually present instead of allocating it up front.
+        let mut seed: Vec<[u8; 32]> = Vec::with_capacity(seed_len.min(self.seed.len().max(1)));
+        for _ in 0..seed_len {
+            let mut s: [u8; 32] = [0u8; 32];
+            reader.read_exact(&mut s)?;
+            seed.push(s);
         }
-        self.data.read_from(reader)
+        self.data.read_from(reader)?;
+        self.k = k;
+        self.base2k = base2k;
+        self.dsize = dsize;
+        self.rank_out = rank_out;
+        self.seed = seed;
+        Ok(())
     }
 }
 
